@@ -995,56 +995,58 @@ def r5_hash(rep, src):
     f = src.func(M + ':BaseVersion.__hash__')
     rep.saw_func(f)
     m = src.mod(M)
-    # taint: raw spellings must not reach hash() except through int() / the chunk normaliser
+    # the value handed to hash(), computed by interpreting __hash__ (sa.heap, hash() itself answering with its argument) on version
+    # objects that compare equal although they are spelled differently: absent / zero epoch, leading zeros in a digit run, absent /
+    # zero revision, a missing trailing number (dpkg: the end of a part counts as 0).  Equal versions must hand the same value to hash().
     rets = [r for r in ast.walk(f.node) if isinstance(r, ast.Return)]
     if len(rets) != 1 or not (isinstance(rets[0].value, ast.Call) and norm(rets[0].value.func) == 'hash'):
         raise AnalysisError('%s: expected `return hash(...)`' % f.site)
     arg = rets[0].value.args[0]
-    raw_sources = ('str(self)', 'self.full_version', 'repr(self)', 'self._BaseVersion__full_version')
+    from .. import heap as H
 
-    def tainted(e, depth=0):
-        """does a raw spelling reach this expression un-normalised?"""
-        t = norm(e)
-        if t in raw_sources:
-            return t
-        if isinstance(e, ast.Attribute) and norm(e.value) == 'self' and e.attr in ('epoch', 'upstream_version', 'debian_revision', 'debian_version'):
-            return t
-        if isinstance(e, ast.Call):
-            fn = norm(e.func)
-            if fn == 'int':
-                return None
-            if fn.startswith('self.') and depth < 2:
-                callee = m.method('BaseVersion', e.func.attr)
-                if callee is not None:
-                    # a normaliser: must chunk with a digit/non-digit regex and convert digit chunks with int
-                    body = norm(callee.node)
-                    if 'int(' in body and ('[0-9]+|[^0-9]+' in body or '\\\\d+|\\\\D+' in body or 're_all_digits_or_not' in body):
-                        return None
-                    return '%s (not a comparison-compatible normaliser)' % fn
-            for a in list(e.args) + [k.value for k in e.keywords]:
-                r = tainted(a, depth)
-                if r:
-                    return r
-            return None
-        if isinstance(e, ast.BoolOp):
-            # `x or "0"` keeps the taint of x; handled by enclosing int()/normaliser
-            for v in e.values:
-                r = tainted(v, depth)
-                if r:
-                    return r
-            return None
-        for ch in ast.iter_child_nodes(e):
-            if isinstance(ch, ast.expr):
-                r = tainted(ch, depth)
-                if r:
-                    return r
-        return None
-    t = tainted(arg)
+    def key_of(ep, up, rev):
+        got = []
+        heap = H.Heap(m, hooks={'hash': lambda it, a, k: (got.append(a[0]), 0)[1]})
+        heap.native_regex = True
+        me = heap.alloc('NativeVersion', {'epoch': ep, 'upstream_version': up, 'debian_revision': rev, 'debian_version': rev,
+                                          '_BaseVersion__epoch': ep, '_BaseVersion__upstream_version': up, '_BaseVersion__debian_revision': rev,
+                                          'full_version': ('%s:' % ep if ep is not None else '') + up + ('-%s' % rev if rev is not None else '')})
+        H.Interp(heap).call(H.Closure(f.node, {}, me, f.cls), [])
+
+        def plain(v):
+            if isinstance(v, H.Ref):
+                o = heap.objs[v.name]
+                return tuple(plain(x) for x in o['items']) if o['__class__'] == 'list' else v.name
+            if isinstance(v, (tuple, list)):
+                return tuple(plain(x) for x in v)
+            return v
+        if len(got) != 1:
+            raise AnalysisError('%s: hash() is called %d times' % (f.site, len(got)))
+        return plain(got[0])
+    classes = [
+        ('absent and zero epoch, absent and zero revision, leading zeros', [(None, '1.0', None), ('0', '1.0', None), ('00', '1.0', None), (None, '1.0', '0'), (None, '1.00', None), (None, '01.0', None)]),
+        ('a missing trailing number counts as 0', [(None, '2.0a', None), (None, '2.0a0', None), (None, '2.0a', '0'), (None, '2.0a00', None)]),
+        ('leading zeros in the revision and the epoch', [('1', '3', '1'), ('01', '3', '01'), ('1', '03', '1')]),
+        ('the end of the upstream part counts as 0', [(None, '1.', None), (None, '1.0', None)]),
+    ]
+    t = None
+    n_keys = 0
+    for label, members in classes:
+        keys = []
+        for mem in members:
+            try:
+                keys.append(key_of(*mem))
+                n_keys += 1
+            except H.Raised as x:
+                t = t or 'for the version (epoch %r, upstream %r, revision %r) __hash__ raises %s' % (mem + (x.exc,))
+        for mem, k_ in zip(members, keys):
+            if k_ != keys[0] and t is None:
+                t = ('the versions (epoch, upstream, revision) %r and %r compare equal (%s) but hand different values to hash(): %r and %r'
+                     % (members[0], mem, label, keys[0], k_))
     if t:
-        rep.fail('C03.R5', f.site, 'hash ignores what equality ignores', 'the hash is computed from the raw spelling `%s`: versions that compare equal '
-                 '(1.0 / 1.00 / 0:1.0 / 1.0-0) get different hashes' % t, where=f.where)
+        rep.fail('C03.R5', f.site, 'hash ignores what equality ignores', t + ': versions that compare equal (1.0 / 1.00 / 0:1.0 / 1.0-0) get different hashes', where=f.where)
     else:
-        rep.ok('C03.R5', f.site, 'hash ignores what equality ignores', 'only int(epoch or 0) and chunk-normalised parts reach hash()')
+        rep.ok('C03.R5', f.site, 'hash ignores what equality ignores', '%d versions in %d classes of equal versions: one value per class reaches hash()' % (n_keys, len(classes)))
     # all three components contribute (otherwise unequal versions collide systematically - allowed, but equal ones must agree: ok)
     parts = {a for a in ('epoch', 'upstream_version', 'debian_revision') if ('self.' + a) in norm(arg)}
     rep.ok('C03.R5', f.site, 'components hashed', ', '.join(sorted(parts)) or 'none', nontrivial=False)
@@ -1062,42 +1064,69 @@ def r6_unbounded_conversions(rep, src):
     conversion limit) -- so no int() may be applied to a whole digit run on the comparison / hash path (runs can be compared as
     text: without leading zeros, by length, then lexicographically).  int() of a single character is bounded."""
     mod = src.mod(M)
-    sites = ['NativeVersion._compare', 'NativeVersion._version_cmp_part', 'NativeVersion._version_cmp_string', 'NativeVersion._order',
-             'BaseVersion.__hash__', 'BaseVersion._hash_key_part', 'BaseVersion._hash_key']
+    # the two public operations and everything of the class hierarchy they reach: a finding names the operation (what fails for the
+    # user), its text the conversions reached from it -- moving a conversion between helpers is the same finding
     n = 0
-    for q in sites:
-        fn = mod.funcs.get(q)
-        if fn is None:
-            continue
-        rep.saw_func(fn)
-        calls = [c for c in ast.walk(fn.node) if isinstance(c, ast.Call) and norm(c.func) == 'int' and c.args]
-        if not calls:
-            continue
+    for entry in ('NativeVersion._compare', 'BaseVersion.__hash__'):
+        root = mod.funcs.get(entry)
+        if root is None:
+            raise AnalysisError('%s:%s not found' % (M, entry))
+        reach, todo = [], [root]
+        while todo:
+            g_ = todo.pop()
+            if any(g_ is x for x in reach):
+                continue
+            reach.append(g_)
+            for c in ast.walk(g_.node):
+                if isinstance(c, ast.Call) and isinstance(c.func, ast.Attribute) and isinstance(c.func.value, ast.Name) and c.func.value.id in ('self', 'cls', 'NativeVersion', 'BaseVersion'):
+                    for cname in ('NativeVersion', 'BaseVersion'):
+                        h_ = mod.method(cname, c.func.attr)
+                        if h_ is not None:
+                            todo.append(h_)
+                            break
+                if isinstance(c, ast.Attribute) and isinstance(c.value, ast.Name) and c.value.id in ('self', 'cls') and not isinstance(getattr(c, '_parent', None), ast.Call):
+                    h_ = mod.method('NativeVersion', c.attr)          # a method taken as a value (map(cls._order, ...))
+                    if h_ is not None:
+                        todo.append(h_)
+        found = []
+        for fn in reach:
+            rep.saw_func(fn)
+            calls = [c for c in ast.walk(fn.node) if isinstance(c, ast.Call) and norm(c.func) == 'int' and c.args]
+            if not calls:
+                continue
+            q = fn.qual
+            # a single character: the parameter of a function whose every call site passes an element of the iteration over a text
+            single_char = False
+            if q.endswith('._order'):
+                p0 = fn.params()[-1]
+                users = [c for f2 in mod.funcs.values() for c in ast.walk(f2.node) if isinstance(c, ast.Call) and norm(c.func).endswith('._order')]
+                mapped = [c for f2 in mod.funcs.values() for c in ast.walk(f2.node) if isinstance(c, ast.Call) and norm(c.func) == 'map' and c.args and norm(c.args[0]).endswith('._order')]
+
+                def elem_of_text(c):
+                    par = getattr(c, '_parent', None)
+                    while par is not None and not isinstance(par, (ast.ListComp, ast.GeneratorExp, ast.For)):
+                        par = getattr(par, '_parent', None)
+                    if isinstance(par, (ast.ListComp, ast.GeneratorExp)):
+                        g = par.generators[0]
+                        return isinstance(g.target, ast.Name) and [norm(a_) for a_ in c.args] == [g.target.id] and isinstance(g.iter, ast.Name)
+                    if isinstance(par, ast.For):
+                        return isinstance(par.target, ast.Name) and [norm(a_) for a_ in c.args] == [par.target.id] and isinstance(par.iter, ast.Name)
+                    return False
+                single_char = bool(users or mapped) and all(elem_of_text(c) for c in users) and all(norm(c.args[0]) == p0 for c in calls)
+            if single_char:
+                rep.ok('C03.R6', fn.site, 'int() of one character', 'applied to one character only', nontrivial=False)
+            else:
+                found += [(fn, c) for c in calls]
         n += 1
-        # a single character: the parameter of a function whose every call site passes an element of the iteration over a text
-        single_char = False
-        if q.endswith('._order'):
-            p0 = fn.params()[-1]
-            users = [c for f2 in mod.funcs.values() for c in ast.walk(f2.node) if isinstance(c, ast.Call) and norm(c.func).endswith('._order')]
-            mapped = [c for f2 in mod.funcs.values() for c in ast.walk(f2.node) if isinstance(c, ast.Call) and norm(c.func) == 'map' and c.args and norm(c.args[0]).endswith('._order')]
-            def elem_of_text(c):
-                par = getattr(c, '_parent', None)
-                while par is not None and not isinstance(par, (ast.ListComp, ast.GeneratorExp, ast.For)):
-                    par = getattr(par, '_parent', None)
-                if isinstance(par, (ast.ListComp, ast.GeneratorExp)):
-                    g = par.generators[0]
-                    return isinstance(g.target, ast.Name) and [norm(a_) for a_ in c.args] == [g.target.id] and isinstance(g.iter, ast.Name)
-                if isinstance(par, ast.For):
-                    return isinstance(par.target, ast.Name) and [norm(a_) for a_ in c.args] == [par.target.id] and isinstance(par.iter, ast.Name)
-                return False
-            single_char = bool(users or mapped) and all(elem_of_text(c) for c in users) and all(norm(c.args[0]) == p0 for c in calls)
         what = 'int() of a digit run'
-        if single_char:
-            rep.ok('C03.R6', fn.site, what, 'applied to one character only', nontrivial=False)
+        if found:
+            rep.fail('C03.R6', root.site, what, '%s convert%s a whole digit run (or the epoch) to an integer: for a valid version with a run of more than 4300 digits (leading zeros '
+                     'included: "1." + "0" * 4300 + "1") %s ValueError on CPython >= 3.11, where dpkg orders the same strings' % (
+                         ', '.join('`%s` in %s' % (norm(c)[:40], fn.qual) for fn, c in found[:4]), 's' if len(found) == 1 else '',
+                         'every comparison operator and version_compare raise' if 'compare' in entry else 'hash() raises'),
+                     where='%s:%d' % (found[0][0].module.relpath, found[0][1].lineno))
         else:
-            rep.fail('C03.R6', fn.site, what, '`%s` converts a whole digit run (or the epoch) to an integer: for a valid version with a run of more than 4300 digits (leading zeros '
-                     'included: "1." + "0" * 4300 + "1") every comparison operator, version_compare and hash() raise ValueError on CPython >= 3.11, where dpkg orders the '
-                     'same strings' % norm(calls[0])[:50], where='%s:%d' % (fn.module.relpath, calls[0].lineno))
+            rep.ok('C03.R6', root.site, what, 'no conversion of a whole digit run reachable')
     if n < 2:
         raise AnalysisError('only %d functions with integer conversions found on the comparison / hash path' % n)
 
